@@ -11,10 +11,12 @@ Open Scope Q_scope.
    - Tippett  max(1-p);
    - user callables of the families below (defined identically in the harness):
        NegWSum w = -sum(w_i p_i)  (w >= 0: valid),  PosSum = sum(p) (invalid: increasing),
-       NegMax = -max(p) *)
+       NegMax = -max(p),
+       Logit = sum(log((1 - min(p,1))/p)): order-equivalent to prod((1 - min(p,1))/p); it is -inf (here: 0) as soon as
+       one p-value is >= 1, so whole groups of rows tie with an infinite statistic *)
 Inductive comb :=
   | Fisher | Liptak (tab : list (Q * Q)) | Tippett
-  | NegWSum (w : list Q) | PosSum | NegMax.
+  | NegWSum (w : list Q) | PosSum | NegMax | Logit.
 
 Definition qsum (l : list Q) : Q := fold_right Qplus 0 l.
 Definition qprod (l : list Q) : Q := fold_right Qmult 1 l.
@@ -34,6 +36,7 @@ Definition psi (c : comb) (p : list Q) : Q :=
   | NegWSum w => - qsum (map (fun xw => fst xw * snd xw) (combine p w))
   | PosSum => qsum p
   | NegMax => - qmaxl1 p
+  | Logit => qprod (map (fun x => (1 - Qmin x 1) / x) p)
   end.
 (* stat_ge c s t  <->  "combined statistic s >= combined statistic t" *)
 Definition stat_ge (c : comb) (s t : Q) : bool :=
